@@ -210,6 +210,11 @@ func (f *Frame) setPayloadLength(n int) *Frame {
 }
 
 func (f *Frame) SetPayload(b []byte) *Frame {
+	// A frame taken from the pool keeps the length of its previous use, which can be shorter than the largest header
+	// (6 bytes after an empty masked message). Make the whole header addressable before the extended payload length
+	// is written into it, otherwise a payload that needs the 16 or 64-bit length form indexes out of range.
+	*f = util.ExtendSlice(*f, frameMaxHeaderLength)
+
 	f.setPayloadLength(len(b)) // set the length as it's used by `payloadOffset`.
 
 	*f = util.ExtendSlice(*f, f.payloadOffset()+len(b))
